@@ -279,19 +279,39 @@ def readoutUnitsFirst (s : State) (tagged : List (Bool × Ev)) : Entry :=
   let r := runTagged s tagged
   buildEntryWalk r.1.emitZero s.unitOf r.2
 
-/-- a sequential script: updater steps and whole readouts -/
+/-- `f64` addition / subtraction on bit patterns (`GaugeFn::increment` / `decrement` of `AtomicU64`:
+`f64::from_bits(cur) ± value`); executable twin, IEEE binary64 like the Rust side -/
+def f64Add (a b : Nat) : Nat := (Float.ofBits a.toUInt64 + Float.ofBits b.toUInt64).toBits.toNat
+def f64Sub (a b : Nat) : Nat := (Float.ofBits a.toUInt64 - Float.ofBits b.toUInt64).toBits.toNat
+
+/-- a sequential script: updater steps, whole readouts, and the remaining recording entry points of the handles the
+bridge hands out, which are defined by what they do to one cell:
+* `recordMany k v n` — `Histogram::record_many(v, n)`: `metrics` 0.24's default `HistogramFn::record_many` is
+  `for _ in 0..n { self.record(v) }`, and the bridge's `Histogram` does not override it: `n` `hrec` steps;
+* `absolute k n` — `Counter::absolute(n)`: `fetch_max(n)` on the counter cell;
+* `gaugeAdd k sub x` — `Gauge::increment(x)` / `decrement(x)`: an atomic read-modify-write with `f64` arithmetic. -/
 inductive Op where
   | ev (e : Ev)
   | readout
+  | recordMany (k : Key) (v : Nat) (n : Nat)
+  | absolute (k : Key) (n : Nat)
+  | gaugeAdd (k : Key) (sub : Bool) (x : Nat)
   deriving DecidableEq, Repr
+
+def stepOp (s : State) : Op → State
+  | .ev e => (step s e).1
+  | .readout => (readout s).1
+  | .recordMany k v n => (run s (List.replicate n (.hrec k v))).1
+  | .absolute k n => { s with ctr := s.ctr.put k (max (s.ctrOf k) n) }
+  | .gaugeAdd k sub x => { s with gauge := s.gauge.put k (if sub then f64Sub (s.gaugeOf k) x else f64Add (s.gaugeOf k) x) }
 
 def runScript (s : State) : List Op → State × List Entry
   | [] => (s, [])
-  | .ev e :: ops => runScript (step s e).1 ops
   | .readout :: ops =>
     let r := readout s
     let r2 := runScript r.1 ops
     (r2.1, r.2 :: r2.2)
+  | op :: ops => runScript (stepOp s op) ops
 
 end MetricsRs
 
